@@ -19,6 +19,10 @@ impl TemplateLibrary {
         let mut templates = HashMap::new();
 
         let mut elem_id = 0;
+        // Visit the files in a fixed order. (If two files define the same name
+        // the definition that is kept must not depend on the hash order.)
+        let mut library_contents: Vec<_> = library_contents.into_iter().collect();
+        library_contents.sort_by_key(|(file_id, _)| *file_id);
         for (file_id, file_contents) in library_contents {
             for definition in file_contents {
                 match definition {
